@@ -267,7 +267,7 @@ def authWithUnixPass (w : World) (id pw : Nat) (softlocked : Bool) : Except Err 
 
 /-- `auth_ldap`. -/
 def authLdap (w : World) (target pw : Nat) (softlocked : Bool) : BindResult :=
-  if target == w.anonymous then
+  if anonymousTestIsUuidEq && target == w.anonymous then
     match w.acct target with
     | none => { res := .error .noMatchingEntries }
     | some a =>
@@ -282,21 +282,6 @@ def authLdap (w : World) (target pw : Nat) (softlocked : Bool) : BindResult :=
     | (.ok (some a), up) =>
       { res := .ok (some ⟨a.uuid, mkSession .unix w a.uuid none⟩),
         delayed := if up then [(.unixPwUpgrade, a.uuid, pw)] else [] }
-
-/-- `token_auth_ldap` on top of `validate_and_parse_token_to_identity_token` (expiry tests
-`exp <= ct` for a UAT, `ct >= expiry` for an api token; the account of an api token must exist). -/
-def tokenAuthLdap (w : World) (pw : Nat) : BindResult :=
-  match lookup pw w.tokens with
-  | none => { res := .error .notAuthenticated }
-  | some (.uat a s e pu) =>
-    if (match e with | some x => decide (x ≤ w.ct) | none => false) then { res := .error .sessionExpired }
-    else { res := .ok (some ⟨a, mkSession .tokenUat w a (some (.uat a s e pu))⟩) }
-  | some (.apit a t i e pu) =>
-    if (match e with | some x => decide (w.ct ≥ x) | none => false) then { res := .error .sessionExpired }
-    else
-      match w.acct a with
-      | none => { res := .error .notAuthenticated }
-      | some _ => { res := .ok (some ⟨a, mkSession .tokenApi w a (some (.apit a t i e pu))⟩) }
 
 /-- One check of `application_auth_ldap`; `none` = passed. -/
 def appCheck (w : World) (a : Acct) (appName : List Char) (pw : Nat) :
@@ -332,14 +317,6 @@ def applicationAuthLdap (w : World) (appName : List Char) (usr pw : Nat) : BindR
   | some a =>
     if !a.isAccount then { res := .error .notAnAccount }
     else { res := runAppChecks w a appName pw appBindChecks }
-
-/-- `do_bind`. -/
-def doBind (w : World) (dn : List Char) (pw : Nat) (softlocked : Bool) : BindResult :=
-  match bindTarget w dn pw with
-  | .error e => { res := .error e }
-  | .ok (.account u) => authLdap w u pw softlocked
-  | .ok .apiToken => tokenAuthLdap w pw
-  | .ok (.application a u) => applicationAuthLdap w a u pw
 
 /-! ### Session ↦ identity (`validate_ldap_session`) -/
 
@@ -383,6 +360,48 @@ def processApit (w : World) (a t issuedAt : Nat) (pu : ApiPurpose) : Except Err 
     else .ok ⟨if apitEntryIsAccounts then a else w.anonymous,
               if apitScopeFromPurpose then apitScope pu else .readWrite⟩
 
+/-- UAT expiry test of `validate_and_parse_token_to_identity_token`: `exp <= ct`. -/
+def uatExpired (w : World) : Option Nat → Bool
+  | some x => decide (x ≤ w.ct)
+  | none => false
+
+/-- api token expiry test: `ct >= expiry`. -/
+def apitExpired (w : World) : Option Nat → Bool
+  | some x => decide (w.ct ≥ x)
+  | none => false
+
+/-- `self.process_*_to_identity(..)?;` ahead of the token: an error refuses the bind. -/
+def tokenGate (r : Except Err Ident) (t : Token) : BindResult :=
+  match r with
+  | .error err => { res := .error err }
+  | .ok _ => { res := .ok (some t) }
+
+/-- `token_auth_ldap` on top of `validate_and_parse_token_to_identity_token` (signature, expiry,
+the account of an api token must exist), then — when the generated flags say the source does so
+— the identity builder of the token kind (account window, stored session). -/
+def tokenAuthLdap (w : World) (pw : Nat) : BindResult :=
+  match lookup pw w.tokens with
+  | none => { res := .error .notAuthenticated }
+  | some (.uat a s e pu) =>
+    if uatExpired w e then { res := .error .sessionExpired }
+    else tokenGate (if tokenBindValidatesUat then processUat w a s pu else .ok ⟨a, .readOnly⟩)
+           ⟨a, mkSession .tokenUat w a (some (.uat a s e pu))⟩
+  | some (.apit a t i e pu) =>
+    if apitExpired w e then { res := .error .sessionExpired }
+    else
+      match w.acct a with
+      | none => { res := .error .notAuthenticated }
+      | some _ => tokenGate (if tokenBindValidatesApit then processApit w a t i pu else .ok ⟨a, .readOnly⟩)
+                    ⟨a, mkSession .tokenApi w a (some (.apit a t i e pu))⟩
+
+/-- `do_bind`. -/
+def doBind (w : World) (dn : List Char) (pw : Nat) (softlocked : Bool) : BindResult :=
+  match bindTarget w dn pw with
+  | .error e => { res := .error e }
+  | .ok (.account u) => authLdap w u pw softlocked
+  | .ok .apiToken => tokenAuthLdap w pw
+  | .ok (.application a u) => applicationAuthLdap w a u pw
+
 /-- The account a session names. -/
 def Session.subject : Session → Nat
   | .unixBind u => u
@@ -406,11 +425,9 @@ an api token) and then the same two identity builders. -/
 def nativeTokenIdent (w : World) (pw : Nat) : Except Err Ident :=
   match lookup pw w.tokens with
   | none => .error .notAuthenticated
-  | some (.uat a s e pu) =>
-    if (match e with | some x => decide (x ≤ w.ct) | none => false) then .error .sessionExpired
-    else processUat w a s pu
+  | some (.uat a s e pu) => if uatExpired w e then .error .sessionExpired else processUat w a s pu
   | some (.apit a t i e pu) =>
-    if (match e with | some x => decide (w.ct ≥ x) | none => false) then .error .sessionExpired
+    if apitExpired w e then .error .sessionExpired
     else
       match w.acct a with
       | none => .error .notAuthenticated
